@@ -160,6 +160,90 @@ theorem take_zero_stuck (d : Datagrams) (s : Nat) (hs : d.segmentSize = some s)
   cases d
   simp_all
 
+/-- One call that leaves something behind took a full batch: exactly `n · s` bytes. -/
+theorem takeSegments_full (n s : Nat) (d : Datagrams) (hlen : d.contents.length ≤ usizeMax)
+    (hseg : d.segmentSize = some s) (hne : (takeSegments d n).2.contents ≠ []) :
+    (takeSegments d n).1.contents.length = n * s := by
+  unfold takeSegments at hne ⊢
+  rw [hseg] at hne ⊢
+  simp only [List.length_take] at hne ⊢
+  have hdrop : (d.contents.drop (min (satMul n s) d.contents.length)).length ≠ 0 := by
+    intro h0; exact hne (List.length_eq_zero_iff.mp h0)
+  rw [List.length_drop] at hdrop
+  unfold satMul at hdrop ⊢
+  omega
+
+/-- A call on a batch without a segment size (a single datagram) leaves nothing behind. -/
+theorem takeSegments_none_rest (n : Nat) (d : Datagrams) (hseg : d.segmentSize = none) :
+    (takeSegments d n).2.contents = [] := by
+  unfold takeSegments
+  rw [hseg]
+
+/-- Batches are maximal: in the repeated call every taken batch except the last one holds
+exactly `n` full datagrams (`n · s` bytes) — so the number of calls is the least possible and a
+short batch can only be the final one. -/
+theorem all_but_last_full (n : Nat) (d : Datagrams) (h : d.WF) :
+    ∀ (i : Nat) (hi : i + 1 < (takeAll n d).1.length) (s : Nat), d.segmentSize = some s →
+      ((takeAll n d).1[i]'(by omega)).taken.contents.length = n * s := by
+  suffices H : ∀ (m : Nat) (d : Datagrams), measure d ≤ m → d.contents.length ≤ usizeMax →
+      ∀ (i : Nat) (hi : i + 1 < (takeAll n d).1.length) (s : Nat), d.segmentSize = some s →
+        ((takeAll n d).1[i]'(by omega)).taken.contents.length = n * s from
+    H (measure d) d (Nat.le_refl _) h.2
+  intro m
+  induction m with
+  | zero =>
+    intro d hm hlen i hi s hseg
+    exfalso
+    unfold measure at hm
+    rw [hseg] at hm
+    simp at hm
+  | succ m ih =>
+    intro d hm hlen i hi s hseg
+    by_cases hre : (takeSegments d n).2.contents.isEmpty = true
+    · exfalso; rw [takeAll] at hi; simp [hre] at hi
+    · by_cases hmlt : measure (takeSegments d n).2 < measure d
+      · have hne : (takeSegments d n).2.contents ≠ [] := by
+          intro e; rw [e] at hre; exact hre rfl
+        have hEq : takeAll n d =
+            (⟨(takeSegments d n).1, (takeSegments d n).2⟩ :: (takeAll n (takeSegments d n).2).1,
+             (takeAll n (takeSegments d n).2).2) := by
+          rw [takeAll]; simp [hre, hmlt]
+        have hlen2 : (takeSegments d n).2.contents.length ≤ usizeMax := by
+          have : (takeSegments d n).2.contents.length ≤ d.contents.length := by
+            unfold takeSegments; rw [hseg]; simp only [List.length_drop]; omega
+          omega
+        cases i with
+        | zero =>
+          simp only [hEq, List.getElem_cons_zero]
+          exact takeSegments_full n s d hlen hseg hne
+        | succ j =>
+          have hi' : j + 1 < (takeAll n (takeSegments d n).2).1.length := by
+            rw [hEq] at hi; simpa using hi
+          -- the rest still carries the segment size: otherwise its run has one step
+          have hseg2 : (takeSegments d n).2.segmentSize = some s := by
+            cases hs2 : (takeSegments d n).2.segmentSize with
+            | some s2 =>
+              have : s2 = s := by
+                unfold takeSegments at hs2; rw [hseg] at hs2
+                simp only at hs2
+                split at hs2 <;> simp_all
+              rw [this]
+            | none =>
+              exfalso
+              have hnone := takeSegments_none_rest n (takeSegments d n).2 hs2
+              rw [takeAll] at hi'
+              simp [hnone] at hi'
+          have := ih (takeSegments d n).2 (by omega) hlen2 j hi' s hseg2
+          simpa [hEq] using this
+      · exfalso; rw [takeAll] at hi; simp [hre, hmlt] at hi
+
+-- Non-vacuity of `all_but_last_full`: a run with more than one call exists.
+example : 0 + 1 < (takeAll 2 ⟨some .ce, some 3, [1, 2, 3, 4, 5, 6, 7]⟩).1.length := by
+  rw [takeAll]
+  simp [takeSegments, satMul, usizeMax, measure, Generated.C16.batchMinSegments]
+  rw [takeAll]
+  simp [takeSegments]
+
 -- Non-vacuity: well-formed batches exist for every shape the statement names, and the
 -- hypotheses `1 ≤ n`, `d.WF` are jointly satisfiable also for `n = usize::MAX`.
 example : Datagrams.WF ⟨some .ce, some 3, [1, 2, 3, 4, 5, 6, 7]⟩ := by
